@@ -42,7 +42,8 @@ static void sweep_case(long item)
         w_buffers(96, (item & 1) != 0, 48);
         w_init(0);
         static const char *forms[4] = { "AT+H\n", "AT+H?\n", "AT+H=1\n", "AT+H=?\n" };
-        in_reset(); in_puts(forms[sw_kind]); in_puts("AT+E?\r\n"); in_puts("AT+X\n");
+        in_reset(); in_puts(forms[sw_kind]); if ((sw_kind + sw_pre + st4 + bp) & 1) { INB[INLEN - 1] = '\r'; in_putc('\n'); }      /* half of the held lines end in CR LF */
+        in_puts("AT+E?\r\n"); in_puts("AT+X\n");
         static uint8_t bits[4096];
         for (size_t i = 0; i < sizeof bits; i++) bits[i] = bp == 1 ? (uint8_t)(i & 1) : bp == 2 ? (uint8_t)(i < 40 || i > 90) : 1;
         if (bp == 1 || bp == 2) sch_bits(&WS, bits, sizeof bits); else sch_eager(&WS);
@@ -72,9 +73,10 @@ static void sweep_case(long item)
         if (INPOS != inpos_at_hold) viol("C14", "read-during-hold", "input consumed during the hold");
         /* release */
         if (sw_path == 0) eng_hold_exit((cat_status)API_STATUS[st4]);
-        else { sw_event_release = true; eng_trigger(2, (item & 1) ? CAT_CMD_TYPE_TEST : CAT_CMD_TYPE_READ); }
+        else { sw_event_release = true; eng_trigger(2, (item & 1) ? CAT_CMD_TYPE_TEST : CAT_CMD_TYPE_READ); if (QCAP >= 2) eng_trigger(0, CAT_CMD_TYPE_READ); }      /* behind the releasing event an event of the held command itself is waiting */
         long codes0 = RESULT_CODES;
         if (run_quiet(eng_progress_bound()) < 0) { viol("C15", "no-quiescence", "no quiescence after the release"); goto out; }
+        if (EV_WAITING != 0 || EV_INPROGRESS) { viol("C14", "event-not-delivered-during-hold", "%ld event(s) accepted while the command was held were never processed", EV_WAITING + (EV_INPROGRESS ? 1 : 0)); goto out; }
         /* run_quiet does not sample: re-check the end state with the monitors */
         eng_after_service(CAT_STATUS_BUSY);
         if (RESULT_CODES - codes0 != 3 && !case_failed())
